@@ -47,11 +47,18 @@ def record_control(tid: str, tt, seed: int, calls: int, with_history: bool, grid
             fixed = None
             if len(events) >= calls:
                 break
-        sd = rec.make_sd(tt)
+        # one call in six runs on a diagram with a small max_motifs_per_node: the library then either refuses
+        # (RuntimeError: recorded as "nothing reported") or, when no node reaches the limit, answers as without it
+        maxm = rng.choice([1, 2, 2, 3, 4]) if (fixed is None and rng.random() < 1 / 6) else 0
+        sd = rec.make_sd(tt, dict(rec.default_cfg(), maxm=maxm) if maxm else None)
         names = rec.var_names(sd)
         fresh = True
         hist = []
-        if with_history and fixed is None and rng.random() < 0.7:
+        if maxm:
+            with_history_now = False
+        else:
+            with_history_now = with_history
+        if with_history_now and fixed is None and rng.random() < 0.7:
             fresh = False
             for _k in range(rng.randint(1, 3)):
                 op = gen.random_op(rng, ["exp", "bfs", "dfs", "min", "minskip", "skipmin", "skiprem", "block", "scc", "tgt", "aseeds"],
@@ -86,11 +93,17 @@ def record_control(tid: str, tt, seed: int, calls: int, with_history: bool, grid
                                  "ctl": [[rec.vec(d, names) for d in step] for step in iv.control],
                                  "ok": bool(iv.successful)})
         except Exception as ex:  # noqa: BLE001
-            e["raised"] = True
-            e["exc"] = type(ex).__name__ + ": " + str(ex)[:100]
+            if maxm and isinstance(ex, RuntimeError) and not isinstance(ex, TimeoutError):
+                e["res"] = []                # refused under the motif limit: nothing reported
+                e["fresh"] = False           # (C07 speaks about what is returned; a refusal is not compared)
+                e["exc"] = "refused: " + str(ex)[:80]
+            else:
+                e["raised"] = True
+                e["exc"] = type(ex).__name__ + ": " + str(ex)[:100]
         finally:
             signal.setitimer(signal.ITIMER_REAL, 0)
             signal.signal(signal.SIGALRM, _old)
+        e["maxm"] = maxm
         events.append(e)
     return {"tid": tid, "net": {"n": n, "f": tt}, "events": events}
 
